@@ -514,6 +514,77 @@ class X86Model(object):
                 raise AnalysisError('_dis: /digit rejection guard `%s` is outside the evaluable subset: %s' % (u(g.test)[:60], e))
         return False
 
+    def _size_nodes(self):
+        from .srcmodel import walk_no_nested, parent
+        if getattr(self, '_size_stmts', None) is None:
+            dis = self.arch.method('x86_mn', '_dis')
+            digit = None
+            for n in walk_no_nested(dis):
+                if isinstance(n, ast.If) and u(n.test).replace(' ', '') == 'afsin[d0,d1,d2,d3,d4,d5,d6,d7]':
+                    digit = n
+            if digit is None:
+                raise AnalysisError('_dis: the /digit branch was not found')
+            dst = None
+            for i, st in enumerate(digit.body):
+                if isinstance(st, ast.Expr) and u(st.value) == 'mnemo_args.append(modr)':
+                    dst = digit.body[i + 1:]
+            if dst is None:
+                raise AnalysisError('_dis: /digit branch no longer appends modr as the operand')
+            chain = self._dis_mmx_nodes()[0]
+            blk = parent(chain).body
+            i0 = i1 = None
+            for i, st in enumerate(blk):
+                if isinstance(st, ast.Assign) and u(st.targets[0]) == 'mafs' and 'get_afs_re' in u(st.value):
+                    i0 = i
+                if isinstance(st, ast.Expr) and u(st.value) == 'mnemo_args.append(mafs)':
+                    i1 = i
+            if i0 is None or i1 is None or i1 < i0:
+                raise AnalysisError('_dis: operand construction of the reg,r/m branch was not found')
+            self._size_stmts = (dst, blk[i0 + 1:i1])
+        return self._size_stmts
+
+    def dis_operand_sizes(self, name, modifs, dibs, opc, afs_, is_mem, opmode=None, admode=None, sse_prefix=()):
+        """(size of the ModRM reg operand or None for /digit rows, size of the r/m operand) as the size statements of _dis compute
+        them for a row variant (the statements after the operand dicts are built, evaluated with modr[ad] = is_mem; opmode/admode are
+        the modes at that point, i.e. after the MMX/SSE register-file selection).  'rejected' when _dis returns None, 'never' at a NEVER site."""
+        from .consteval import _Return, Native
+        afs = self.afs
+        dst, rst = self._size_nodes()
+        me = Obj('self')
+        me.opmode, me.admode = (opmode or afs.u32), (admode or afs.u32)
+        m_ = Obj('m')
+        m_.modifs = dict(modifs)
+        m_.name, m_.rm, m_.opc, m_.afs = name, list(dibs), list(opc), afs_
+        lg = Obj('log')
+        lg.debug = Native(lambda *a: None)
+        lg.info = Native(lambda *a: None)
+        modr = {afs.ad: bool(is_mem), afs.size: None}
+        if not is_mem:
+            modr[0] = 1
+        mafs = {afs.ad: False, 0: 1, afs.size: None}
+        scope = dict((k, v) for k, v in self.env.items() if isinstance(v, (str, int, bool, list, tuple, dict)) or v is None)
+        scope.update({'self': me, 'm': m_, 'modr': modr, 'mafs': mafs, 'mnemo_args': [modr], 'dibs': list(dibs), 'x86_afs': afs, 'log': lg,
+                      'sse_prefix': list(sse_prefix), 'read_prefix': list(sse_prefix), 'swap_args': bool(modifs.get(self.env['sw'])), 'afs': afs_})
+        for fname_, fnode_ in self.arch.funcs.items():
+            scope.setdefault(fname_, fnode_)
+        ev = Evaluator({})
+        ev.env = scope
+        digit = isinstance(afs_, int)
+        try:
+            ev.exec_stmts(dst if digit else rst, scope)
+        except _Return:
+            return 'rejected'
+        except NotConst as e:
+            if 'NEVER' in str(e):
+                return 'never'
+            raise AnalysisError('_dis: operand-size statements for %s %s are outside the evaluable subset: %s' % (name, list(opc), e))
+        return (None if digit else mafs[afs.size]), modr[afs.size]
+
+    def dis_rm_size(self, c, is_mem, opmode=None):
+        """Size _dis gives the ModRM r/m operand of a non-MMX row variant (cell `c`); 'rejected' when the branch returns None for that form."""
+        r = self.dis_operand_sizes(c.name, c.modifs, c.row.rm, c.opc, c.row.afs, is_mem, opmode)
+        return r if isinstance(r, str) else r[1]
+
     # -- vocabulary
     def decoder_names(self):
         """Mnemonic names the decoder can put in an instruction (cells + special_opcodes renames)."""
